@@ -1890,15 +1890,20 @@ class Process:
         return _psposix.wait_pid(self.pid, timeout, self._name)
 
     @wrap_exceptions
-    def create_time(self):
+    def create_time(self, monotonic=False):
         ctime = float(self._parse_stat_file()['create_time'])
         # According to documentation, starttime is in field 21 and the
         # unit is jiffies (clock ticks).
         # We first divide it for clock ticks and then add uptime returning
         # seconds since the epoch.
+        ctime /= CLOCK_TICKS
+        if monotonic:
+            # Seconds since boot: unlike the absolute time it is not
+            # affected by system clock updates.
+            return ctime
         # Also use cached value if available.
         bt = BOOT_TIME or boot_time()
-        return (ctime / CLOCK_TICKS) + bt
+        return ctime + bt
 
     @wrap_exceptions
     def memory_info(self):
